@@ -7,6 +7,7 @@ import (
 	"os"
 	"sort"
 	"strconv"
+	"strings"
 	"time"
 )
 
@@ -91,6 +92,11 @@ type ReplayFile struct {
 	EventHash string            `json:"event_sha256"`
 	Original  int               `json:"original_choices"`
 	ShrinkRun int               `json:"shrink_executions"`
+	// Warmup: run indices of the same batch (batch_seed, tier) that are executed, in this order,
+	// before the recorded run. Present only when the violation depends on state the code under test
+	// keeps for the life of the process (a package-level cache, a pool): the run alone does not
+	// reproduce it in a fresh process, the run after these predecessors does.
+	Warmup []int `json:"warmup_runs,omitempty"`
 }
 
 var exitHooks []func()
@@ -118,6 +124,8 @@ func Main(args []string) int {
 		return cmdShrink(args[1:])
 	case "replay":
 		return cmdReplay(args[1:])
+	case "context":
+		return cmdContext(args[1:])
 	}
 	fmt.Fprintf(os.Stderr, "unknown sub-command %q\n", args[0])
 	return 2
@@ -361,6 +369,72 @@ func cmdShrink(args []string) int {
 	return writeJSON(*out, rf)
 }
 
+// warmup executes earlier runs of a batch exactly as their worker did.
+func warmup(c *Check, tier string, batchSeed uint64, indices []int, kf []KnownFinding) {
+	if len(indices) == 0 {
+		return
+	}
+	plans := plansOf(c, tier)
+	for _, i := range indices {
+		var prefix Trace
+		if i < len(plans) {
+			prefix = plans[i]
+		}
+		ExecSeeded(c, tier, i, batchSeed, prefix, kf)
+	}
+}
+
+// cmdContext confirms a recorded violation after a warm-up of earlier runs of its batch and writes
+// the (unminimised) replay file carrying that warm-up. Exit 0: reproduced; 3: not; 2: trouble.
+func cmdContext(args []string) int {
+	fs := flag.NewFlagSet("context", flag.ExitOnError)
+	id := fs.String("prop", "", "property id")
+	tier := fs.String("tier", "quick", "tier")
+	in := fs.String("in", "", "violation record (json)")
+	out := fs.String("out", "", "replay file to write")
+	known := fs.String("known", "", "known findings file")
+	batch := fs.Uint64("seed", 1, "batch seed")
+	warm := fs.String("warmup", "", "comma-separated run indices to execute first")
+	fs.Parse(args)
+	c := mustCheck(*id)
+	kf := LoadKnown(*known)
+	b, err := os.ReadFile(*in)
+	if err != nil {
+		fmt.Fprintln(os.Stderr, err)
+		return 2
+	}
+	var rec ViolationRecord
+	if err := json.Unmarshal(b, &rec); err != nil {
+		fmt.Fprintln(os.Stderr, err)
+		return 2
+	}
+	var idx []int
+	for _, f := range strings.Split(*warm, ",") {
+		if f == "" {
+			continue
+		}
+		n, err := strconv.Atoi(f)
+		if err != nil {
+			fmt.Fprintln(os.Stderr, err)
+			return 2
+		}
+		idx = append(idx, n)
+	}
+	warmup(c, *tier, *batch, idx, kf)
+	r := ExecTrace(c, *tier, rec.Index, rec.Seed, rec.Trace, rec.Blobs, kf)
+	if r.HarnessErr != "" {
+		fmt.Fprintf(os.Stderr, "HARNESS: %s\n", r.HarnessErr)
+		return 2
+	}
+	if r.Viol == nil || r.Viol.Class != rec.Violation.Class {
+		return 3
+	}
+	rf := &ReplayFile{Version: 1, Property: c.ID, World: c.World, Tier: *tier, Seed: rec.Seed, Index: rec.Index,
+		BatchSeed: *batch, Choices: r.Src.Trace(), Blobs: rec.Blobs, Violation: r.Viol, EventLog: r.EventLog(),
+		EventHash: r.Fingerprint(), Original: len(rec.Trace), ShrinkRun: 0, Warmup: idx}
+	return writeJSON(*out, rf)
+}
+
 // cmdReplay re-executes a replay file. Exit 0: reproduced (same class, same event hash);
 // exit 3: did not reproduce; exit 2: trouble.
 func cmdReplay(args []string) int {
@@ -383,6 +457,7 @@ func cmdReplay(args []string) int {
 		return 2
 	}
 	c := mustCheck(rf.Property)
+	warmup(c, rf.Tier, rf.BatchSeed, rf.Warmup, LoadKnown(*known))
 	r := ExecTrace(c, rf.Tier, rf.Index, rf.Seed, rf.Choices, rf.Blobs, LoadKnown(*known))
 	if *verbose {
 		for _, l := range r.EventLog() {
